@@ -36,6 +36,70 @@ type argTrack struct {
 	listP  [][]*big.Int
 	checks []func() string // further post-call checks (struct fields, key arrays)
 	keep   []func() string // renderers of RESULT objects, re-evaluated after later ops (results must stay stable)
+	rets   []interface{}   // RESULT objects handed to the caller (*big.Int, []*big.Int, *Point, *Signature, []byte): see probe
+}
+
+// Ret registers objects the library handed out as (part of) a result.  They belong to the caller, who may use them
+// as destinations; the repeat probe (execOp) runs the op again, writes through the objects the second call returned
+// and runs it a third time: all three results must agree (a result that shares memory with a cache entry, a memo
+// table or a pooled buffer does not survive this).
+func (a *argTrack) Ret(objs ...interface{}) { a.rets = append(a.rets, objs...) }
+
+var exportedInts = map[*big.Int]bool{}
+
+func init() {
+	for _, v := range []*big.Int{constants.Q, constants.Zero, constants.One, constants.MinusOne, babyjub.A, babyjub.D,
+		babyjub.Order, babyjub.SubOrder, babyjub.B8.X, babyjub.B8.Y} {
+		exportedInts[v] = true
+	}
+}
+
+func scribbleInt(v *big.Int) {
+	// exported constants are never written by the probe (the constant guard and the *const ops watch them)
+	if v != nil && !exportedInts[v] {
+		v.SetInt64(0x5C81BB1E)
+	}
+}
+
+func (a *argTrack) scribble() {
+	for _, o := range a.rets {
+		switch x := o.(type) {
+		case *big.Int:
+			scribbleInt(x)
+		case []*big.Int:
+			for _, v := range x {
+				scribbleInt(v)
+			}
+		case *babyjub.Point:
+			if x != nil && x != babyjub.B8 {
+				scribbleInt(x.X)
+				scribbleInt(x.Y)
+			}
+		case *babyjub.Signature:
+			if x != nil {
+				if x.R8 != nil && x.R8 != babyjub.B8 {
+					scribbleInt(x.R8.X)
+					scribbleInt(x.R8.Y)
+				}
+				scribbleInt(x.S)
+			}
+		case []byte:
+			for i := range x {
+				x[i] = 0xEE
+			}
+		default:
+			panic("harness: Ret of unsupported type")
+		}
+	}
+}
+
+// probeWanted: the first 6 occurrences of every op kind and every 5th afterwards (the probe triples the cost of an op)
+var probeCount = map[string]int{}
+
+func probeWanted(op string) bool {
+	probeCount[op]++
+	n := probeCount[op]
+	return n <= 6 || n%5 == 0
 }
 
 // Keep registers a result object: it is rendered now and again after each of the next ops; a change means
@@ -364,7 +428,17 @@ func execOp(line string) (res string) {
 				}
 			}
 		}()
-		done <- dispatch(op, pat, args, a)
+		r := dispatch(op, pat, args, a)
+		if !concurrentMode && len(a.rets) > 0 && !strings.Contains(r, "!") && probeWanted(op) {
+			a2 := &argTrack{}
+			r2 := dispatch(op, pat, args, a2)
+			a2.scribble()
+			r3 := dispatch(op, pat, args, &argTrack{})
+			if r2 != r || r3 != r {
+				r += "!result-shared-with-later-call(repeat,write-through,repeat)"
+			}
+		}
+		done <- r
 	}()
 	select {
 	case r := <-done:
@@ -443,6 +517,7 @@ func dispatch(op, pat string, args []string, a *argTrack) string {
 			return classify(err)
 		}
 		a.Keep(func() string { return showInts(r) })
+		a.Ret(r)
 		return showInts(r)
 	case "poseidon.tablesum":
 		need(args, 1)
@@ -466,6 +541,7 @@ func dispatch(op, pat string, args []string, a *argTrack) string {
 		if err != nil {
 			return classify(err)
 		}
+		a.Ret(r)
 		return r.String()
 	case "mimc7.hashgeneric":
 		need(args, 3)
@@ -475,14 +551,18 @@ func dispatch(op, pat string, args []string, a *argTrack) string {
 		if err != nil {
 			return classify(err)
 		}
+		a.Ret(r)
 		return r.String()
 	case "mimc7.mimc7hash":
 		need(args, 2)
-		return mimc7.MIMC7Hash(a.Int(args[0]), a.Int(args[1])).String()
+		rh := mimc7.MIMC7Hash(a.Int(args[0]), a.Int(args[1]))
+		a.Ret(rh)
+		return rh.String()
 	case "mimc7.mimc7hashgeneric":
 		need(args, 3)
 		rg := mimc7.MIMC7HashGeneric(a.Int(args[0]), a.Int(args[1]), atoi(args[2]))
 		a.Keep(func() string { return rg.String() })
+		a.Ret(rg)
 		return rg.String()
 	case "mimc7.hashbytes":
 		need(args, 1)
@@ -491,6 +571,7 @@ func dispatch(op, pat string, args []string, a *argTrack) string {
 			return classify(err)
 		}
 		a.Keep(func() string { return r.String() })
+		a.Ret(r)
 		return r.String()
 	case "mimc7.consts":
 		seedHash, iv, n, cts := mimc7.VerifConstants()
@@ -544,6 +625,7 @@ func dispatch(op, pat string, args []string, a *argTrack) string {
 			return s1 + "!result-overwritten-by-next-call"
 		}
 		a.Keep(func() string { return showBytes(h1) })
+		a.Ret(h1)
 		return s1
 	case "blake.hash":
 		need(args, 1)
@@ -554,6 +636,7 @@ func dispatch(op, pat string, args []string, a *argTrack) string {
 			return s1 + "!result-overwritten-by-next-call"
 		}
 		a.Keep(func() string { return showBytes(d1) })
+		a.Ret(d1)
 		return s1
 	// ---------------- babyjub ----------------
 	case "bj.add":
@@ -580,7 +663,9 @@ func dispatch(op, pat string, args []string, a *argTrack) string {
 			return showPt(r.Affine()) + "!ARGMUT(operand of PointProjective.Add)"
 		}
 		r0 := showPP(r)
-		a1 := showPt(r.Affine())
+		ra := r.Affine()
+		a.Ret(ra)
+		a1 := showPt(ra)
 		if showPP(r) != r0 {
 			return a1 + "!ARGMUT(receiver of PointProjective.Affine)"
 		}
@@ -594,6 +679,7 @@ func dispatch(op, pat string, args []string, a *argTrack) string {
 		p := a.Point(args[1], args[2])
 		res := babyjub.NewPoint().Mul(s, p)
 		a.Keep(func() string { return showPt(res) })
+		a.Ret(res)
 		return showPt(res)
 	case "bj.mulrecv":
 		need(args, 3)
@@ -614,6 +700,7 @@ func dispatch(op, pat string, args []string, a *argTrack) string {
 		if ret != recv {
 			return showPt(ret) + " recv=" + showPt(recv) + "!returned-other-object"
 		}
+		a.Ret(ret)
 		return showPt(ret) + " recv=" + showPt(recv)
 	case "bj.set":
 		need(args, 2)
@@ -686,6 +773,7 @@ func dispatch(op, pat string, args []string, a *argTrack) string {
 		if ret != recv {
 			return showPt(ret) + " recv=" + showPt(recv) + "!returned-other-object"
 		}
+		a.Ret(ret)
 		return showPt(ret) + " recv=" + showPt(recv)
 	case "bj.pfsy":
 		need(args, 2)
@@ -693,6 +781,7 @@ func dispatch(op, pat string, args []string, a *argTrack) string {
 		if err != nil {
 			return classify(err)
 		}
+		a.Ret(p)
 		return showPt(p)
 	case "bj.packsigny":
 		need(args, 2)
@@ -774,6 +863,7 @@ func dispatch(op, pat string, args []string, a *argTrack) string {
 			return "!nondeterministic"
 		}
 		a.Keep(func() string { return showPt(sig2.R8) + sig2.S.String() })
+		a.Ret(sig, sig2)
 		return fmt.Sprintf("%s %s %s", showPt(sig.R8), sig.S, showBytes(c[:]))
 	case "ed.verify":
 		need(args, 7)
@@ -823,6 +913,7 @@ func dispatch(op, pat string, args []string, a *argTrack) string {
 		if err != nil {
 			return "sig:" + classify(err)
 		}
+		a.Ret(pk.Point(), sig)
 		if args[0] == "poseidon" {
 			err = pk.VerifyPoseidon(msg, sig)
 		} else if args[0] == "mimc7" {
@@ -870,6 +961,7 @@ func dispatch(op, pat string, args []string, a *argTrack) string {
 			}
 			return classify(err)
 		}
+		a.Ret(ret)
 		return fmt.Sprintf("%s %s recv=%s %s", showPt(ret.R8), ret.S, showPt(recv.R8), recv.S)
 	case "ed.decompresssig":
 		need(args, 1)
@@ -880,6 +972,7 @@ func dispatch(op, pat string, args []string, a *argTrack) string {
 			}
 			return classify(err)
 		}
+		a.Ret(s)
 		return fmt.Sprintf("%s %s", showPt(s.R8), s.S)
 	case "ed.pk.marshal":
 		need(args, 2)
@@ -898,6 +991,7 @@ func dispatch(op, pat string, args []string, a *argTrack) string {
 		if err := pk.UnmarshalText(a.Bytes(args[0])); err != nil {
 			return classify(err)
 		}
+		a.Ret(pk.Point())
 		return showPt(pk.Point())
 	case "ed.comp.unmarshal":
 		need(args, 2)
